@@ -299,3 +299,18 @@ func Run(cfg Config, ops []Op) *Obs {
 	o.Probe, o.ProbeSends = r.composes, r.sends
 	return o
 }
+
+// Conc gives concurrent tests access to the recording payload and sender.
+type Conc struct{ r *rec }
+
+func NewConc() *Conc { return &Conc{r: &rec{}} }
+
+func (c *Conc) Event(id string, flush bool, tok int) *eventlogger.Event {
+	return &eventlogger.Event{Type: "t", CreatedAt: base, Formatted: map[string][]byte{}, Payload: &ev{id: id, flush: flush, tok: tok, r: c.r}}
+}
+
+func (c *Conc) Sender() gated.Sender { return &sender{r: c.r} }
+
+// Composes returns the ComposeFrom calls recorded so far (call after quiescence).
+func (c *Conc) Composes() []ComposeCall { return c.r.composes }
+func (c *Conc) Sends() []SendCall       { return c.r.sends }
